@@ -291,7 +291,12 @@ Proof.
   - (* EIdent *) cbn [ExecFun.sx]. apply keepsA_pushr.
   - (* EPrefix *) cbn [ExecFun.sx]. apply keepsA_then; [apply Hx|]. intros m1 _.
     apply keepsA_pop1s. intros v s. apply (keepsA_pushr (set_stk m1 s)).
-  - (* EInfix *) cbn [ExecFun.sx]. apply keepsA_then; [apply Hx|]. intros m1 _.
+  - (* EInfix *)
+    destruct (tokty_eq_dec op TPeriod) as [->|Hne].
+    { rewrite sx_dot_S. generalize (estr 64 r) as on. intro on.
+      apply keepsA_then; [apply Hx|]. intros m1 _.
+      apply keepsA_pop1s. intros v s. apply (keepsA_pushr (set_stk m1 s)). }
+    rewrite sx_infix_S by exact Hne. apply keepsA_then; [apply Hx|]. intros m1 _.
     apply keepsA_then; [apply Hx|]. intros m2 _.
     destruct (mutator_op op).
     + destruct l; try (apply keepsA_same; reflexivity). apply keepsA_pop2s. intros a b' s.
@@ -465,7 +470,12 @@ Proof.
   - cbn [ExecFun.sx]. apply quiet_pushr.
   - cbn [ExecFun.sx]. apply quiet_then; [apply Hx|]. intros m1 _.
     apply quiet_pop1s. intros v s. apply (quiet_pushr (set_stk m1 s)).
-  - cbn [ExecFun.sx]. apply quiet_then; [apply Hx|]. intros m1 _.
+  - (* EInfix *)
+    destruct (tokty_eq_dec op TPeriod) as [->|Hne].
+    { rewrite sx_dot_S. generalize (estr 64 r) as on. intro on.
+      apply quiet_then; [apply Hx|]. intros m1 _.
+      apply quiet_pop1s. intros v s. apply (quiet_pushr (set_stk m1 s)). }
+    rewrite sx_infix_S by exact Hne. apply quiet_then; [apply Hx|]. intros m1 _.
     apply quiet_then; [apply Hx|]. intros m2 _.
     destruct (mutator_op op).
     + destruct l; try (apply quiet_same; reflexivity). apply quiet_pop2s. intros a b' s.
@@ -1272,7 +1282,12 @@ Proof.
   - (* EIdent *) cbn [ExecFun.sx]. rewrite (sim_lookup _ _ H). apply rsim_pushr. exact H.
   - (* EPrefix *) cbn [ExecFun.sx]. apply rsim_then; [apply Hx; exact H|]. intros m1 m1' _ _ H1.
     apply rsim_pop1s; [exact H1|]. intros v s. apply rsim_pushr. apply sim_stk. exact H1.
-  - (* EInfix *) cbn [ExecFun.sx]. apply rsim_then; [apply Hx; exact H|]. intros m1 m1' _ _ H1.
+  - (* EInfix *)
+    destruct (tokty_eq_dec op TPeriod) as [->|Hne].
+    { rewrite !sx_dot_S. generalize (estr 64 r) as on. intro on.
+      apply rsim_then; [apply Hx; exact H|]. intros m1 m1' _ _ H1.
+      apply rsim_pop1s; [exact H1|]. intros v s. apply rsim_pushr. apply sim_stk. exact H1. }
+    rewrite !sx_infix_S by exact Hne. apply rsim_then; [apply Hx; exact H|]. intros m1 m1' _ _ H1.
     apply rsim_then; [apply Hx; exact H1|]. intros m2 m2' _ _ H2.
     destruct (mutator_op op).
     + destruct l; try (apply rsim_err; exact H2). apply rsim_pop2s; [exact H2|]. intros a b' s.
